@@ -257,4 +257,134 @@ class ThreadEngine(Engine):
             'tags': ['threads%d' % len(case['progs']), 'switches%d' % min(switches // 5 * 5, 40)]}
 
 
-ENGINES = [ThreadEngine()]
+class ScopedClassReadEngine(Engine):
+  """a read of the operative config whose record holds a SCOPED reference to a class with a registered method, run against
+  a thread that calls that method (looked up through Gin), calls the consumer of the reference, or reads too.  The reader
+  is stopped at each of its preemption points, the other thread runs to its end, the reader finishes.  Written from the
+  property text: no thread fails, every read parses, the final operative record is that of running the same programs one
+  after another, and the call still receives its configured value.  Implementation only (Model/Threads.v has no
+  references among its values)."""
+  name = 'scoped-class-read'
+  model = False
+  rule = ('threads/sched: a reader of the operative config (which holds @scope/Class for a class with a registered method, '
+          'directly or through a macro) stopped at every preemption point while a second thread looks the method up and '
+          'calls it / calls the consumer / reads; no failure, reads parse, final record == sequential run')
+
+  FORMS = {'binding': 'h.k = @sc/K\n', 'binding-eval': 'h.k = @sc/K()\n', 'macro': 'MAC = @sc/K\nh.k = %MAC\n',
+           'nested': 'h.k = [1, {"a": @sc/K}]\n'}
+  OTHERS = ('method', 'consumer', 'read', 'method+read')
+
+  def budget(self, tier):
+    return 0 if tier == 'quick' else 200
+
+  def setup(self, form):
+    gin = C.fresh_gin()
+    ns = {'gin': gin, '__name__': 'c18mod'}
+    exec('@gin.configurable\nclass K:\n  def __init__(self, z=0):\n    self.z = z\n'  # pylint: disable=exec-used
+         '  @gin.register\n  def m(self, p=1):\n    return p\n\n'
+         '@gin.configurable\ndef h(k=None):\n  return 0\n', ns)
+    gin.parse_config(self.FORMS[form] + 'K.m.p = 7\n')
+    return gin, ns
+
+  def bodies(self, gin, ns, other, reads, results):
+    obj = ns['K']()
+
+    def reader():
+      reads.append(gin.operative_config_str())
+
+    def second():
+      for act in other.split('+'):
+        if act == 'method':
+          results.append(gin.get_configurable('K.m')(obj))
+        elif act == 'consumer':
+          with gin.config_scope('s1'):
+            ns['h']()
+        else:
+          reads.append(gin.operative_config_str())
+    return [reader, second]
+
+  def run(self, form, other, schedule, called_before):
+    gin, ns = self.setup(form)
+    reads, results = [], []
+    if called_before:
+      gin.get_configurable('K.m')(ns['K']())
+    ns['h']()                       # the reference (or the macro holding it) is now part of the operative record
+    bodies = self.bodies(gin, ns, other, reads, results)
+    if schedule is None:
+      errors, trace = [], []
+      for b in reversed(bodies):     # one after another: the second thread, then the reader
+        try:
+          b()
+          errors.append(None)
+        except Exception as e:  # pylint: disable=broad-except
+          errors.append(e)
+    else:
+      s = sched.Scheduler(gin.config, bodies, schedule)
+      sched.install(gin.config, s)
+      errors, trace = s.run(), s.trace
+    # values by their text: references of two gin instances never compare equal
+    oper = {k: {p: repr(x) for p, x in v.items()} for k, v in gin.config._OPERATIVE_CONFIG.items()}  # pylint: disable=protected-access
+    return gin, errors, reads, results, oper, trace
+
+  def reader_steps(self, form):
+    _, _, _, _, _, trace = self.run(form, 'method', [0] * 5000, True)
+    return sum(1 for t in trace if t == 0)
+
+  def corpus(self):
+    out = []
+    # every preemption point of the reader for the plain form (the windows are one step wide), a stride for the others
+    for form, stride in (('binding', 1), ('binding-eval', 3), ('macro', 4), ('nested', 3)):
+      n = self.reader_steps(form)
+      for i, a in enumerate(range(1, max(n, 2), stride)):
+        other = self.OTHERS[i % len(self.OTHERS)] if form != 'binding' else 'method'
+        out.append({'form': form, 'other': other, 'a': a, 'called_before': form != 'nested' or i % 2 == 0})
+    return out
+
+  def gen(self, rng, tier):
+    form = rng.choice(sorted(self.FORMS))
+    return {'form': form, 'other': rng.choice(self.OTHERS), 'a': rng.randint(0, 400), 'called_before': rng.random() < 0.7}
+
+  def shrink(self, case):
+    if case['other'] != 'method':
+      yield dict(case, other='method')
+    if case['form'] != 'binding':
+      yield dict(case, form='binding')
+
+  SEQ = {}
+
+  def impl(self, case):
+    form, other, a = case['form'], case['other'], case['a']
+    schedule = [0] * a + [1] * 3000 + [0] * 5000
+    gin, errors, reads, results, oper, trace = self.run(form, other, schedule, case['called_before'])
+    fails = []
+    failed = [(i, e) for i, e in enumerate(errors) if e is not None]
+    for i, e in failed[:1]:
+      fails.append(('read-failed' if i == 0 else 'other-thread-failed', '%s stopped after %d of its steps, the other thread (%s) run to its end, then resumed: '
+                    'the %s raised %s: %s' % ('reader', a, other, 'reader' if i == 0 else 'other thread', type(e).__name__, str(e)[:160])))
+    for text in reads:
+      try:
+        fresh = C.fresh_gin()
+        ns = {'gin': fresh, '__name__': 'c18mod'}
+        exec('@gin.configurable\nclass K:\n  def __init__(self, z=0):\n    self.z = z\n'  # pylint: disable=exec-used
+             '  @gin.register\n  def m(self, p=1):\n    return p\n\n'
+             '@gin.configurable\ndef h(k=None):\n  return 0\n', ns)
+        fresh.parse_config(text)
+      except Exception as e:  # pylint: disable=broad-except
+        fails.append(('read-does-not-parse', '%s: %s: %r' % (type(e).__name__, str(e)[:100], text)))
+        break
+    if any(r != 7 for r in results):
+      fails.append(('call-lost-its-binding', 'K.m.p = 7 is bound; the call made while the read was under way returned %r' % (results,)))
+    key = repr((form, other, case['called_before']))
+    if key not in self.SEQ:
+      _, errors2, _, _, oper2, _ = self.run(form, other, None, case['called_before'])
+      self.SEQ[key] = (oper2, [e for e in errors2 if e is not None])
+    oper2, errors2 = self.SEQ[key]
+    if errors2 and not failed:
+      fails.append(('sequential-run-failed', '%s: %s' % (type(errors2[0]).__name__, str(errors2[0])[:160])))
+    if not failed and not errors2 and oper != oper2:
+      fails.append(('final-operative-differs-from-sequential', 'threads %r; sequential %r' % (sorted(oper.items(), key=repr), sorted(oper2.items(), key=repr))))
+    switches = sum(1 for x, y in zip(trace, trace[1:]) if x != y)
+    return {'obs': T('Done'), 'fails': fails[:3], 'nontrivial': switches >= 2, 'tags': [form, other]}
+
+
+ENGINES = [ThreadEngine(), ScopedClassReadEngine()]
